@@ -169,6 +169,8 @@ def glob_of(rng, nm):
 def gen_pred_guided(rng, g, m, depth, names):
     """a predicate that is likely (not certainly) true at node m"""
     r = rng.random()
+    if depth <= 0:
+        r = r * 0.7          # leaves only: the nesting depth is bounded by 'depth'
     if r < 0.4:
         return ("path", False, gen_guided(rng, g, names, depth - 1, rng.choice([1, 1, 2]), {m}))
     if r < 0.5:
@@ -419,6 +421,100 @@ def ds_query(g, steps, mode):
     return ("ok", ctxs)
 
 
+def ds_witness_paths(g, steps, cap=400):
+    """all root paths (as node tuples below the root) that decompose along the query steps:
+    every step is realised by the edges of the path itself.  None when more than `cap`."""
+    out = set()
+    count = [0]
+
+    class TooMany(Exception):
+        pass
+
+    def walks(n, direct_only, min_edges, max_edges):
+        """(path suffix, end) of walks from n with min..max edges (max None = unbounded)"""
+        todo = [((), n)]
+        while todo:
+            suf, x = todo.pop()
+            if len(suf) >= min_edges:
+                yield suf, x
+            if max_edges is not None and len(suf) >= max_edges:
+                continue
+            for c, d in g[x]["kids"]:
+                if d or not direct_only:
+                    count[0] += 1
+                    if count[0] > 20000:
+                        raise TooMany()
+                    todo.append((suf + (c,), c))
+
+    def go(n, prefix, i):
+        if i == len(steps):
+            out.add(prefix)
+            if len(out) > cap:
+                raise TooMany()
+            return
+        dsl, ax, test, pred = steps[i]
+        starts = walks(n, False, 0, None) if dsl else [((), n)]
+        for s1, x in starts:
+            direct = ax.startswith("direct-")
+            if ax == "self":
+                rng_ = (0, 0)
+            elif ax in ("child", "direct-child"):
+                rng_ = (1, 1)
+            elif ax.endswith("or-self"):
+                rng_ = (0, None)
+            else:
+                rng_ = (1, None)
+            for s2, y in walks(x, direct, rng_[0], rng_[1]):
+                nm = g[y]["name"]
+                if not (test == "*" or (ds_glob(test, nm) if "*" in test else nm == test)):
+                    continue
+                if pred is not None and not ds_holds(g, pred, y):
+                    continue
+                go(y, prefix + s1 + s2, i + 1)
+    try:
+        go(0, (), 0)
+    except TooMany:
+        return None
+    return out
+
+
+def witness_check(ctx, g, steps, text, res, case):
+    """strict reading of 'each result is reported with a real path that passes through the intermediate
+    steps of the query' (known finding F30: the implementation restricts paths by the node set 'valid'):
+      - a reported stack must decompose along the query steps (be a witness path),
+      - with queryAll every witness path must be reported.
+    Only called when the result sets are right."""
+    a, b = res.get(("tree", False)), res.get(("tree", True))
+    if not (a and b and a[0] == "ok" and b[0] == "ok" and b[1]):
+        return
+    W = ds_witness_paths(g, steps)
+    if W is None:
+        ctx.count("witness-paths-not-enumerated")
+        return
+    rep_all = set(tuple(path_nodes(g, st)) for st, _ in b[1])
+    rep_one = set(tuple(path_nodes(g, st)) for st, _ in a[1])
+    ctx.count("witness-check:cases")
+    kinds = []
+    if not rep_one <= W:
+        kinds.append("default-mode-path-is-no-witness")
+    if not W <= rep_all:
+        kinds.append("queryAll-misses-a-witness-path")
+    if not rep_all <= W:
+        kinds.append("queryAll-lists-a-non-witness-path")
+    for k in kinds:
+        ctx.count("witness-check:" + k)
+    if kinds:
+        def show(ps):
+            return sorted("/".join(g[x]["name"] for x in p) or "/" for p in ps)
+        n_rep = ctx.hist.get("witness-check:reported", 0)
+        if n_rep < 6:            # a handful of concrete inputs is enough for one class
+            ctx.count("witness-check:reported")
+            ctx.violation("reported-path-is-no-witness",
+                          "query %r: %s; reported %r, with queryAll %r, witness paths %r" % (
+                              text, ", ".join(kinds), show(rep_one), show(rep_all), show(W)),
+                          dict(case, impl={"%s/%s" % k: v for k, v in res.items()}, kinds=kinds))
+
+
 def real_path(g, stack):
     """follow child names from the root; None if some name does not exist"""
     n = 0
@@ -535,7 +631,9 @@ class Impl:
                 return ("syntax", s)
             return ("internal", "BobError:" + s)
         except RecursionError:
-            return ("internal", "RecursionError")
+            # Python recursion limit inside pyparsing (about 6 nested parentheses / 5 nested predicates):
+            # a resource limit of the parser, not a question of the query language
+            return ("resource", "RecursionError")
         except Exception as e:
             return ("internal", type(e).__name__ + ":" + str(e)[:100])
 
@@ -646,6 +744,10 @@ def check_case(ctx, g, steps, text, mode, res, case):
         ok = False
         ctx.violation(sig, what, dict(case, impl={"%s/%s" % k: v for k, v in res.items()}, declarative=repr(want)))
 
+    if any(r[0] == "resource" for r in res.values()):
+        if hasattr(ctx, "count"):
+            ctx.count("resource-limit:RecursionError")
+        return True
     for (kind, qa), r in res.items():
         if r[0] == "internal":
             viol("internal-exception", "query %r raised %s" % (text, r[1]))
@@ -666,7 +768,7 @@ def check_case(ctx, g, steps, text, mode, res, case):
         gs = set(got)
         if gs != D:
             lost, extra = sorted(D - gs), sorted(gs - D)
-            if lost and not extra and any(st[1].startswith("desc") or st[1].startswith("direct-desc") or st[0] for st in steps):
+            if lost and not extra and below_other_match(g, steps, lost, set(want[1])):
                 sig = "descendant-result-unreachable-through-valid"
             else:
                 sig = "result-set-differs:" + ("lost" if lost else "") + ("extra" if extra else "")
@@ -693,6 +795,41 @@ def check_case(ctx, g, steps, text, mode, res, case):
         if [x for x in a[1] if x[1] != 0] != b[1]:
             viol("tree-and-package-results-differ", "query %r: queryTreePath and queryPackagePath disagree" % text)
     return ok
+
+
+def below_other_match(g, steps, lost, D):
+    """class of the finding fixed by 'fix: descendant queries find packages below other matches':
+    the last step is a multi-hop step and every lost package is reachable from the step's context
+    packages only through another package selected by the same step (plus at least one package in
+    between that is not selected)."""
+    if not steps:
+        return False
+    dsl, ax, test, pred = steps[-1]
+    if not (dsl or "descendant" in ax):
+        return False
+    ctxs = ds_path(g, steps[:-1], {0})
+    direct = ax.startswith("direct-") and not dsl
+    for l in lost:
+        # search from the contexts without passing through other selected packages
+        seen = set()
+        todo = [c for c in ctxs]
+        free = False
+        while todo:
+            x = todo.pop()
+            if x in seen:
+                continue
+            seen.add(x)
+            if x == l:
+                free = True
+                break
+            if x in D and x not in ctxs:
+                continue
+            for c, d in g[x]["kids"]:
+                if d or not direct:
+                    todo.append(c)
+        if free:
+            return False
+    return True
 
 
 def shrink(g_raw, steps, fails):
@@ -755,7 +892,7 @@ def one_query(raw, order, ids, aliases, text, mode, qa, kind="tree"):
 # =================================================================== main
 def run(ctx):
     rng = ctx.rng
-    ctx.rule = ("random DAGs (3-16 nodes, shared nodes, direct and indirect edges, duplicate names under different "
+    ctx.rule = ("random DAGs (3-16 nodes, thorough up to 40; shared nodes, direct and indirect edges, duplicate names under different "
                 "parents, name clashes among indirect dependencies) behind duck-typed packages; queries generated "
                 "from the path grammar (all 7 axes, '.', '//', globs, nested predicates with relative/absolute "
                 "paths, ! && ||, string comparisons, string functions, aliases), rendered with random spacing and "
@@ -763,21 +900,43 @@ def run(ctx):
                 "predicate or a multi-hop axis; distinct by (graph, query text, mode)")
     ctx.assumptions += [
         "pyparsing grammar is not modelled: query ASTs are rendered to text and parsed by the real grammar",
+        "real recipes: a few generated recipe projects (unique package names, provideDeps, metaEnvironment) are "
+        "queried through the bob ls command line and compared with the declarative semantics over the graph that "
+        "bob ls -r -p [-a] lists; there a package is identified by its name (no environment variants)",
         "sqlite persistence of the graph is exercised (real .bob-tree.sqlite3 in a scratch directory) but not modelled; "
         "the model derives the parent relation from the child lists",
         "string predicates: modelled are single/double quoted literals without \\ \" ' $, \"${VAR}\"/\"$VAR\", the "
         "functions eq ne not or and if-then-else, ASCII values; excluded: other string functions (match, subst, ...), "
         "escapes and nested substitutions inside double quotes (that language is property C17), non-ASCII case folding",
+        "queries nested deeper than the Python recursion limit allows inside pyparsing (observed: 6 nested parentheses "
+        "or 5 nested predicates raise RecursionError, also through 'bob ls') are outside the generated space; such an "
+        "outcome is counted as resource-limit, not as a violation",
         "package names are drawn from the nodeTest alphabet (letters digits _ . : + -) and do not start with '.'",
         "empty-mode oracle reads 'complex query' as: a wildcard, predicate, '//' or (direct-)descendant axis occurred "
         "up to and including the first step with an empty result (bob(1) --query)",
         "result paths: the oracle demands a real path to every declaratively selected package, exactly one without "
-        "queryAll; it does not demand that the one reported path is itself a witness of the query steps (the "
-        "implementation restricts paths by a node set, see evalForward docstring)",
+        "queryAll, and (strict reading, graphs up to 10 nodes, witness paths enumerated) that every reported path "
+        "decomposes along the query steps and that queryAll reports every such path; the strict part is known "
+        "finding F30 (signature reported-path-is-no-witness): the implementation restricts paths by a node set",
     ]
+    ctx.note("proved (Coq, unbounded, for every topologically numbered finite graph, every query AST, every string "
+             "valuation): backward evaluation = declarative meaning; forward node set = declarative set; constructor "
+             "rewriting keeps the meaning; (direct-)descendant/ancestor worklist loops = transitive closure; every "
+             "reported stack is a real path to a selected package inside 'valid'; every selected package is reported "
+             "(queryAll and default), once without queryAll; errors only for empty selections; empty-mode table; glob. "
+             "Only exercised by the correspondence (not proved): that the model is the code (pathspec.py vs Model.v), "
+             "the pyparsing grammar, alias substitution on the query text, sqlite persistence, __findResultPackages "
+             "(model frp, compared with the implementation and with queryTreePath), string functions of predicates")
+    try:
+        from props import consts_c18
+        k = consts_c18.read()
+        if set(k["keywords"]) != set(AXES):
+            ctx.tie_broken("axis-keywords", {"grammar": k["keywords"], "harness": AXES})
+    except Exception as e:
+        ctx.tie_broken("constants-c18", repr(e))
     if ctx.replay:
         return replay(ctx)
-    n_graphs = ctx.n(60, 1500)
+    n_graphs = ctx.n(70, 520)
     per_graph = ctx.n(12, 24)
     cases = []
     meta = []
@@ -785,12 +944,17 @@ def run(ctx):
     with Scratch():
         todo = [("corpus", c) for c in load_corpus()] + [("gen", None)] * n_graphs
         gi = 0
+        t_cap = ctx.n(100, 900)       # seconds: under heavy machine load fewer graphs are generated
+        truncated = 0
         for kind0, c in todo:
+            if kind0 == "gen" and ctx.elapsed() > t_cap and len(cases) >= ctx.n(300, 3000):
+                truncated += 1
+                continue
             if kind0 == "corpus":
                 raw = c["raw"]
                 qlist = [(c["steps"], c.get("mode", "nullglob"))]
             else:
-                raw = gen_graph(rng, rng.choice([3, 4, 5, 6, 7, 8, 9, 10, 12, 14, 16]))
+                raw = gen_graph(rng, rng.choice([3, 4, 5, 6, 7, 8, 9, 10, 12, 14, 16] + ctx.n([], [20, 24, 30, 40])))
                 qlist = None
             g, order = effective(raw)
             ids = make_ids(rng, len(raw))
@@ -804,9 +968,9 @@ def run(ctx):
                 for _ in range(per_graph):
                     nst = rng.choice([1, 1, 2, 2, 3, 3, 4, 5])
                     if rng.random() < 0.75:
-                        steps = gen_guided(rng, g, names, rng.choice([0, 1, 1, 2, 3]), nst, {0})
+                        steps = gen_guided(rng, g, names, rng.choice([0, 1, 1, 2, 2, 3]), nst, {0})
                     else:
-                        steps = gen_path(rng, rng.choice([0, 1, 1, 2, 3]), names, nst)
+                        steps = gen_path(rng, rng.choice([0, 1, 1, 2, 2, 3]), names, nst)
                     qlist.append((steps, rng.choice(MODES)))
             for steps, mode in qlist:
                 steps = [tuple(s[:3]) + (to_tuple(s[3]),) for s in steps]
@@ -829,6 +993,8 @@ def run(ctx):
                     ctx.count("with-predicate")
                 case = {"raw": raw, "steps": steps, "mode": mode, "text": text}
                 clean = check_case(ctx, g, steps, text, mode, res, case)
+                if clean and (len(g) <= 10 or kind0 == "corpus"):
+                    witness_check(ctx, g, steps, text, res, case)
                 if not clean and kind0 == "gen":
                     minimise(ctx, raw, steps, mode)
                 if all(r[0] in ("ok", "notfound", "nomatch") for r in res.values()):
@@ -841,7 +1007,10 @@ def run(ctx):
                     ctx.sample({"names": [r["name"] for r in g], "kids": [r["kids"] for r in g], "query": text,
                                 "mode": mode, "impl": r0})
         t_impl = ctx.elapsed()
+        if truncated:
+            ctx.note("time cap reached: %d of %d generated graphs skipped" % (truncated, n_graphs))
         aliases_and_syntax(ctx, rng)
+    real_projects(ctx, rng, ctx.n(1, 20), ctx.n(4, 8))
     t_coq = ctx.elapsed()
     bad, log = coq.run_cases(ctx, ["BobV.C18.Model"], "run4", "res4_eqb", cases, preamble=PRE + "".join(graphs_pre),
                              tag="q", shard=250)
@@ -944,7 +1113,10 @@ def aliases_and_syntax(ctx, rng):
     bad = ["*[b < 'a']", "*['a' < 'b' == 'c']", "*[!'a' < 'b']", "*[nosuch('a')]", "a[b][c]", "..", "a/[b]", "a[", "a]",
            "*[b &&]", "child@", "nonaxis@a", "a//[b]", "*['a' 'b']", "*[eq('a',)]", "a b", "[a]", "*[()]", "*[b || || c]"]
     toks = ["a", "*", "/", "//", "[", "]", "!", "&&", "||", "'x'", '"y"', "==", "<", "(", ")", ".", "child@", "eq(", ",", "self@*"]
-    for i in range(ctx.n(150, 6000)):
+    t0 = ctx.elapsed()
+    for i in range(ctx.n(150, 2500)):
+        if i >= len(bad) + 60 and ctx.elapsed() - t0 > ctx.n(40, 300):
+            break
         q = bad[i] if i < len(bad) else "".join(rng.choice(toks) + rng.choice(["", "", " "]) for _ in range(rng.randint(1, 8)))
         r = one_query(raw, order, ids, {}, q, "nullset", False)
         ctx.evaluated()
@@ -953,6 +1125,134 @@ def aliases_and_syntax(ctx, rng):
             ctx.violation("internal-exception", "query %r raised %s" % (q, r[1]), {"raw": raw, "text": q, "mode": "nullset"})
         if i < len(bad) and r[0] != "syntax":
             ctx.violation("malformed-query-accepted", "query %r -> %r" % (q, r), {"raw": raw, "text": q, "mode": "nullset"})
+
+
+# =================================================================== real recipes through `bob ls`
+REAL_NAMES = ["a", "b", "c", "lib", "lib-x", "libc", "a.b", "x+1", "app_1", "ab", "b-unittest", "a-unittest", "Z", "tool"]
+
+
+def write_project(d, rng, n):
+    """recipes for a random DAG with unique package names; some dependencies are re-provided
+    (provideDeps), which creates indirect edges in the package graph"""
+    names = rng.sample(REAL_NAMES, n)
+    deps = {i: [] for i in range(n)}
+    for j in range(1, n):
+        ps = [i for i in range(j) if rng.random() < 0.35]
+        for i in ps:
+            deps[i].append(j)
+    roots = [j for j in range(n) if j == 0 or not any(j in deps[i] for i in range(j)) or rng.random() < 0.15]
+    os.makedirs(os.path.join(d, "recipes"))
+    with open(os.path.join(d, "config.yaml"), "w") as f:
+        f.write('bobMinimumVersion: "0.25"\n')
+    envs = {}
+    for i in range(n):
+        rng.shuffle(deps[i])
+        prov = [names[c] for c in deps[i] if rng.random() < 0.4]
+        envs[names[i]] = {v: rng.choice(["GPL", "MIT", "0", "1", "false", "ab"]) for v in VARS if rng.random() < 0.6}
+        with open(os.path.join(d, "recipes", names[i] + ".yaml"), "w") as f:
+            if i in roots:
+                f.write("root: True\n")
+            if deps[i]:
+                f.write("depends: [%s]\n" % ", ".join('"%s"' % names[c] for c in deps[i]))
+            if prov:
+                f.write("provideDeps: [%s]\n" % ", ".join('"%s"' % x for x in prov))
+            if envs[names[i]]:
+                f.write("metaEnvironment:\n" + "".join('    %s: "%s"\n' % kv for kv in envs[names[i]].items()))
+            f.write('buildScript: "true"\npackageScript: "true"\n')
+    return envs
+
+
+def bob(d, args):
+    import subprocess
+    r = subprocess.run(["/venv/bin/python", os.path.join(core.REPO, "bob")] + args, cwd=d, stdout=subprocess.PIPE,
+                       stderr=subprocess.PIPE, text=True, timeout=120)
+    return r.returncode, r.stdout, r.stderr
+
+
+def listed_graph(d, envs):
+    """the package graph as `bob ls -r -p` shows it (-a: with indirect edges).  Without environment
+    differences every recipe yields one package, so a package is identified by its name."""
+    rc1, out_d, err1 = bob(d, ["ls", "-r", "-p"])
+    rc2, out_a, err2 = bob(d, ["ls", "-r", "-p", "-a"])
+    if rc1 or rc2:
+        return None, (err1 + err2)[-500:]
+    direct = set()
+    alle = []
+    for out, sink in ((out_d, None), (out_a, alle)):
+        for line in out.split("\n"):
+            if not line.strip():
+                continue
+            parts = [""] + line.strip().split("/")
+            for a, b in zip(parts, parts[1:]):
+                if sink is None:
+                    direct.add((a, b))
+                elif (a, b) not in sink:
+                    sink.append((a, b))
+    names = [""]
+    for a, b in alle:
+        for x in (a, b):
+            if x not in names:
+                names.append(x)
+    num = {x: i for i, x in enumerate(names)}
+    g = [{"name": x, "kids": [], "env": envs.get(x, {})} for x in names]
+    for a, b in alle:
+        g[num[a]]["kids"].append((num[b], (a, b) in direct))
+    return g, None
+
+
+def real_projects(ctx, rng, n_proj, n_q):
+    for pi in range(n_proj):
+        d = core.scratch_dir("c18proj")
+        try:
+            envs = write_project(d, rng, rng.choice([4, 5, 6, 7, 8]))
+            g, err = listed_graph(d, envs)
+            if g is None:
+                ctx.tie_broken("real-project-listing", err)
+                continue
+            names = sorted(r["name"] for r in g[1:])
+            for qi in range(n_q):
+                steps = fix_leads(gen_guided(rng, g, names, rng.choice([0, 1, 2]), rng.choice([1, 2, 2, 3]), {0}), "rel")
+                text = show_path(steps, rng, "rel")
+                mode = rng.choice(MODES)
+                want = ds_query(g, steps, mode)
+                for alt in (False, True):
+                    rc, out, errtxt = bob(d, ["--query", mode, "ls", "-d"] + (["-A"] if alt else []) + [text])
+                    ctx.evaluated()
+                    ctx.count("real:" + ("ok" if rc == 0 else "error"))
+                    ctx.nontrivial(("real", pi, text, mode, alt))
+                    case = {"kind": "real-recipes", "names": [r["name"] for r in g], "kids": [r["kids"] for r in g],
+                            "envs": envs, "text": text, "mode": mode, "alternates": alt, "stdout": out, "stderr": errtxt[-400:]}
+                    if "Traceback" in errtxt:
+                        if "RecursionError" in errtxt:
+                            ctx.count("resource-limit:RecursionError")
+                        else:
+                            ctx.violation("internal-exception", "bob ls -d %r crashed" % text, case)
+                        continue
+                    if rc != 0:
+                        got = ("notfound",) if "not found" in errtxt else ("nomatch",) if "matched no packages" in errtxt else ("other",)
+                    else:
+                        got = ("ok", [l.strip() for l in out.split("\n") if l.strip()])
+                    if got[0] != want[0]:
+                        ctx.violation("bob-ls:empty-mode:%s:%s-instead-of-%s" % (mode, got[0], want[0]),
+                                      "bob --query %s ls -d %r: %s, prescribed %s" % (mode, text, got[0], want[0]), case)
+                        continue
+                    if got[0] != "ok":
+                        continue
+                    paths = [[] if l == "/" else l.split("/") for l in got[1]]
+                    ends = [real_path(g, p) for p in paths]
+                    if None in ends:
+                        ctx.violation("bob-ls:reported-path-not-real", "bob ls -d %r printed a path that does not exist" % text, case)
+                    elif set(ends) != set(want[1]):
+                        ctx.violation("bob-ls:result-set-differs", "bob ls -d %r: packages %r, declarative %r" % (
+                            text, sorted(g[e]["name"] for e in set(ends)), sorted(g[e]["name"] for e in want[1])), case)
+                    elif not alt and len(ends) != len(set(ends)):
+                        ctx.violation("bob-ls:result-reported-twice", "bob ls -d %r lists a package twice" % text, case)
+                    elif len(set(map(tuple, paths))) != len(paths):
+                        ctx.violation("bob-ls:path-reported-twice", "bob ls -d -A %r lists a path twice" % text, case)
+                    else:
+                        ctx.validated(1)
+        finally:
+            shutil.rmtree(d, ignore_errors=True)
 
 
 def load_corpus():
@@ -978,7 +1278,10 @@ def replay(ctx):
             for k, v in res.items():
                 print("  implementation %s/queryAll=%s -> %r" % (k[0], k[1], v))
             print("  declarative: %r" % (ds_query(g, steps, mode),))
-            check_case(ctx, g, steps, text, mode, res, c)
+            if check_case(ctx, g, steps, text, mode, res, c):
+                W = ds_witness_paths(g, steps)
+                print("  witness paths: %r" % (W if W is None else sorted(W),))
+                witness_check(ctx, g, steps, text, res, c)
         else:
             r = one_query(raw, order, ids, c.get("aliases"), c["text"], mode, False)
             print("query %r -> %r" % (c["text"], r))
